@@ -78,3 +78,12 @@ CLAIMED["C15"] = (
  "in both NextMessage and asyncNextMessage, and that the decoder bounds the declared length (0..max) before yielding a frame. Does not decide behaviour under every segmentation.",
  COMMON_NOTE,
  "DESIGN.md section 5 C15")
+
+CLAIMED["C07"] = (
+ "taint -> sanitiser -> sink over SSA with dominator-chain guards; value identity of the prepared amount and the slice bound; additive-leaf decomposition of the frame length; encode/decode table extraction against the frozen RFC 6455 table",
+ "Static necessary-condition analysis. Decides that the declared payload length is bounded (0..max) before every arithmetic use, PrepareRead, Reserve or slice bound in the decoder, "
+ "that Decode starts by consuming the previous frame, that the frame yielded is Data()[:k] for exactly the k PrepareRead granted with k = 2 + ext + (4 if masked) + payload, that "
+ "header accessors only see bytes already granted, and that the encoder/decoder length tables agree with RFC 6455 section 5.2. Does not decide decode(encode(f)) == f on contents "
+ "nor independence from split points beyond these structural facts.",
+ COMMON_NOTE,
+ "DESIGN.md section 5 C07")
